@@ -235,6 +235,14 @@ impl<T: Payload> ThreadCtx<T> {
             Res::Corrupt(t)
         }
     }
+    /// Sets the pattern seed of this thread; half of the seeds make the thread's counting wakers a *family*
+    /// (one data pointer, different vtables) instead of independent `Arc` wakers.
+    pub fn set_pat(&mut self, pat: u64) {
+        self.pat = pat;
+        if crate::rng::hash_mix(pat, 0x77616b65) & 1 == 1 && !cfg!(miri) {
+            self.wakers = WakeCell::family(100, 3);
+        }
+    }
     pub fn has_for(&self, op: Op) -> bool {
         if !op.needs_sender() && !op.needs_receiver() && self.senders.is_empty() && self.receivers.is_empty() && self.stream_owner.is_none() {
             return false;
